@@ -3,7 +3,7 @@
 patch applies on HEAD, the unedited suite passes with it, the demo fails with it and passes without it."""
 import os,subprocess,json,sys,shutil,glob
 ENV=dict(os.environ,GOFLAGS='-mod=mod',GOPROXY='off',GOSUMDB='off',GOTOOLCHAIN='local')
-WT='/tmp/sv-worktree'
+WT=os.environ.get('SV_WT','/tmp/sv-worktree')
 def sh(cmd,cwd=None):
     p=subprocess.run(cmd,shell=True,cwd=cwd,env=ENV,capture_output=True,text=True)
     return p.returncode,(p.stdout+p.stderr)
